@@ -1,6 +1,7 @@
 //@ create src/cli/tests/verif_argv.rs
 //@ native verif_oracle_cli_flows "bounded stand-in / witness finder (C01, C02, C05, C07, C08, C13, C16): the built kestrel binary on the shipped two-key keyring: encrypt for every (from, to) in {alice, bob}^2 (incl. to self) with an empty, a 10-byte and a 70000-byte input, file length = 132 + 32 per chunk + plaintext, the same number of bytes and the magic when the ciphertext goes to standard output, decrypt as each key succeeds exactly for `to`, returns the input and names `from`, a failed decrypt leaves no output file and an existing one intact; with the last chunk of a two-chunk file corrupted the output holds exactly the first chunk and the exit status is 1; the same path as input and output is refused by all four file commands and the file stays intact; a key re-locked under the empty password encrypts and decrypts; password mode round trip (also with an unrelated KESTREL_NEW_PASSWORD exported), rejection of a different password and of the password with a trailing space, tab or newline; extract-pub accepts the key's password and rejects it with a trailing newline / CR LF / space, a leading space, or one letter changed; change-pass (also to a password ending in a newline, and to the empty password) keeps the public key, makes the old password fail, draws a new salt also when the new password equals the old one; two identical encrypt invocations differ in their ephemeral key"
 //@ native verif_oracle_argv_sweep "bounded stand-in / witness finder (C09, C13): the built kestrel binary (stdin closed, no controlling terminal, KESTREL_* unset, scratch working directory) on every argument vector of length <= 2 over 38 tokens (commands, options, aliases, paths of the shipped test keyring / data files, a missing path, an absent output path, empty and non-ASCII strings), every length-3 vector starting with a command word, and 7 complete command lines with each element in turn dropped, duplicated, or replaced by a missing path or one of 10 degenerate strings ('', '.', '..', '/', ...): exit status is 0 or 1, never a signal or panic text; status 1 carries an 'Error:' line; a failed run never leaves a file at the absent output path"
+//@ native verif_oracle_keygen_append "bounded stand-in / witness finder (C14): the built kestrel binary runs `key generate -o F --env-pass` (name on standard input) 1..3 times on one file F, starting from an absent file, from an empty file, from a file holding a shipped two-key keyring and from a file holding unrelated text: after every run the earlier contents of F are a byte prefix of the new contents, a run on an absent file creates exactly one section without a leading blank line, and after every run on a keyring file the newest key and the first key generated encrypt to each other and to themselves (`encrypt -k F`) and decrypts under its own password with the sender named"
 // Native oracle on the REAL binary.  Never counted as proved; a disagreement is a concrete failing argument vector.
 use std::path::PathBuf;
 use std::process::{Command, Stdio};
@@ -284,4 +285,95 @@ fn verif_oracle_cli_flows() {
     let _ = std::fs::remove_dir_all(&dir);
     println!("VERIF_ORACLE verif_oracle_cli_flows cases={} disagreements={} first={:?}", n, bad, first);
     assert!(bad == 0, "the CLI misbehaves in {} of {} checks; first: {:?}", bad, n, first);
+}
+
+
+fn verif_cmd_in(dir: &PathBuf, args: &[&str], envs: &[(&str, &str)], input: &str) -> VRun {
+    use std::io::Write as _;
+    let mut c = Command::new(VERIF_EXE);
+    c.args(args).current_dir(dir).stdin(Stdio::piped()).stdout(Stdio::piped()).stderr(Stdio::piped())
+        .env_remove("KESTREL_PASSWORD").env_remove("KESTREL_NEW_PASSWORD").env_remove("KESTREL_KEYRING").env("HOME", dir);
+    for (k, v) in envs { c.env(k, v); }
+    match c.spawn() {
+        Ok(mut ch) => {
+            if let Some(mut si) = ch.stdin.take() { let _ = si.write_all(input.as_bytes()); }
+            match ch.wait_with_output() {
+                Ok(o) => VRun { code: o.status.code(), err: String::from_utf8_lossy(&o.stderr).to_string(), out: o.stdout },
+                Err(e) => VRun { code: None, err: format!("wait failed: {}", e), out: Vec::new() },
+            }
+        }
+        Err(e) => VRun { code: None, err: format!("spawn failed: {}", e), out: Vec::new() },
+    }
+}
+
+#[test]
+fn verif_oracle_keygen_append() {
+    let mut dir = std::env::temp_dir();
+    dir.push(format!("verif-keygen-{}", std::process::id()));
+    let _ = std::fs::remove_dir_all(&dir);
+    std::fs::create_dir_all(&dir).unwrap();
+    let tests = PathBuf::from(env!("CARGO_MANIFEST_DIR")).join("tests");
+    let shipped = std::fs::read(tests.join("keyring.txt")).unwrap_or_default();
+    let p = |n: &str| dir.join(n).to_string_lossy().to_string();
+    let mut n = 0u32; let mut bad = 0u32; let mut first: Option<String> = None;
+    let mut fail = |bad: &mut u32, first: &mut Option<String>, what: String| { *bad += 1; if first.is_none() { *first = Some(what); } };
+    std::fs::write(p("msg"), b"keygen oracle message").unwrap();
+    // (label, initial contents or None for an absent file, does the file parse as a keyring afterwards)
+    let starts: Vec<(&str, Option<Vec<u8>>, bool)> = vec![
+        ("absent", None, true), ("empty", Some(Vec::new()), true), ("shipped", Some(shipped.clone()), !shipped.is_empty()),
+        ("text", Some(b"# my keys\n".to_vec()), false),
+    ];
+    for (label, init, parses) in starts.iter() {
+        let f = p(&format!("kr-{}.txt", label));
+        let _ = std::fs::remove_file(&f);
+        if let Some(b) = init { std::fs::write(&f, b).unwrap(); }
+        let mut names: Vec<(String, String)> = Vec::new();
+        for k in 0..3usize {
+            n += 1;
+            let before: Option<Vec<u8>> = std::fs::read(&f).ok();
+            let name = format!("gen{}{}", label, k); let pw = format!("pw-{}-{}", label, k);
+            let r = verif_cmd_in(&dir, &["key", "generate", "-o", &f, "--env-pass"], &[("KESTREL_PASSWORD", &pw)], &format!("{}\n", name));
+            if r.code != Some(0) { fail(&mut bad, &mut first, format!("key generate #{} into {} file: exit {:?} {}", k + 1, label, r.code, r.err)); break; }
+            let after = std::fs::read(&f).unwrap_or_default();
+            names.push((name.clone(), pw.clone()));
+            match before {
+                Some(b) => {
+                    if after.len() <= b.len() || after[..b.len()] != b[..] {
+                        fail(&mut bad, &mut first, format!("key generate #{} into {} file ({} bytes before): the earlier contents are not a prefix of the {} bytes now in the file", k + 1, label, b.len(), after.len()));
+                        continue;
+                    }
+                    let added = String::from_utf8_lossy(&after[b.len()..]).to_string();
+                    if !added.starts_with("\n[Key]\n") || added.matches("[Key]").count() != 1 || !added.contains(&format!("Name = {}\n", name)) {
+                        fail(&mut bad, &mut first, format!("key generate #{} into {} file appended {:?}, not a blank line and one [Key] section named {}", k + 1, label, added, name));
+                    }
+                }
+                None => {
+                    let t = String::from_utf8_lossy(&after).to_string();
+                    if !t.starts_with("[Key]\n") || t.matches("[Key]").count() != 1 {
+                        fail(&mut bad, &mut first, format!("key generate into an absent file wrote {:?}", t));
+                    }
+                }
+            }
+            if !*parses { continue; }
+            // every key generated so far is present and usable with its own password: newest -> each, each -> newest
+            for (other, opw) in names.iter().take(1) {
+                let mut pairs = vec![(&name, &pw, other, opw)];
+                if other != &name { pairs.push((other, opw, &name, &pw)); pairs.push((&name, &pw, &name, &pw)); }
+                for (from, fpw, to, tpw) in pairs {
+                    n += 1;
+                    let ct = p("kg.ct"); let pt = p("kg.pt"); let _ = std::fs::remove_file(&ct); let _ = std::fs::remove_file(&pt);
+                    let e = verif_cmd(&dir, &["encrypt", &p("msg"), "-t", to, "-f", from, "-o", &ct, "-k", &f, "--env-pass"], &[("KESTREL_PASSWORD", fpw)]);
+                    if e.code != Some(0) { fail(&mut bad, &mut first, format!("after {} generations into {} file: encrypt from {} to {} fails: exit {:?} {}", k + 1, label, from, to, e.code, e.err)); continue; }
+                    let d = verif_cmd(&dir, &["decrypt", &ct, "-t", to, "-o", &pt, "-k", &f, "--env-pass"], &[("KESTREL_PASSWORD", tpw)]);
+                    let got = std::fs::read(&pt).unwrap_or_default();
+                    if d.code != Some(0) || got != b"keygen oracle message" || !(d.err.contains(from.as_str()) || String::from_utf8_lossy(&d.out).contains(from.as_str())) {
+                        fail(&mut bad, &mut first, format!("after {} generations into {} file: decrypt by {} of a file from {}: exit {:?} {} {}", k + 1, label, to, from, d.code, d.err, String::from_utf8_lossy(&d.out)));
+                    }
+                }
+            }
+        }
+    }
+    let _ = std::fs::remove_dir_all(&dir);
+    println!("VERIF_ORACLE verif_oracle_keygen_append cases={} disagreements={} first={:?}", n, bad, first);
+    assert!(bad == 0, "key generation into an existing file misbehaves in {} of {} cases; first: {:?}", bad, n, first);
 }
